@@ -201,12 +201,22 @@ fn run_sequence_after(departed: &[(Vec<String>, bool)], who: Who, lines: &[(Stri
         let sig = json!({"check": "crash", "problem": problem, "word": word, "who": format!("{:?}", who), "detail": first_panic_frame(&detail)});
         v.report(sig, json!({"session": format!("{:?}", who), "line": short_line(&line.0), "arg_classes": line.1, "detail": detail, "trace": trace}))
     };
+    // the name of the conflict record the session was last told about (it carries an operation id nobody can guess):
+    // a later line may name it as {conflict}
+    let mut last_conflict = String::from("$conflicts_none_0");
     'seq: for line in lines {
         n_lines += 1;
+        let substituted = (line.0.replace("{conflict}", &last_conflict), line.1.clone());
+        let line = &substituted;
         let res = {
             let _watch = hang::guard("command-handler", &short_line(&line.0));
             std::panic::catch_unwind(std::panic::AssertUnwindSafe(|| s.call(&dbs, &line.0)))
         };
+        if let Ok(r) = &res {
+            if let Some(p) = r.resp.find("$conflicts_") {
+                last_conflict = r.resp[p..].split(|c: char| c == ' ' || c == ',' || c == '\n').next().unwrap_or("").to_string();
+            }
+        }
         match &res {
             Ok(r) => trace.push(json!({"line": short_line(&line.0), "reply": short_line(&r.resp)})),
             Err(e) => {
@@ -326,6 +336,12 @@ pub fn targeted() -> Vec<(Who, Vec<String>)> {
         t.push((who, vec!["set k 2147483647".into(), "increment k".into(), "increment k 1".into(), "get k".into()]));
         t.push((who, vec!["set k -2147483648".into(), "increment k -1".into(), "get k".into()]));
         t.push((who, vec!["use-db adb tok".into(), "arbiter".into(), "set k 1".into(), "set k 2".into(), "set-safe k 0 c".into(), "set-safe k 2147483647 d".into(), "resolve 1 adb k 2147483647 x".into(), "resolve 1 adb k -2 x".into()]));
+        // the record of a pending conflict is an ordinary key: removed, overwritten or resolved twice by a client while the
+        // key still waits for it
+        for tamper in ["remove {conflict}", "set {conflict} garbage", "set {conflict} resolved x", "remove $conflicts_k*", "increment {conflict}"] {
+            t.push((who, vec!["use-db adb tok".into(), "arbiter".into(), "set k 1".into(), "set k 2".into(), "set-safe k 0 c".into(), tamper.into(), "set k d".into(), "set-safe k 0 e".into(), "get-safe k".into(),
+                "arbiter".into(), "resolve 1 adb k 0 x".into(), "set k f".into(), "keys $conflicts".into()]));
+        }
         t.push((who, vec!["join 127.0.0.1:1".into(), "join 127.0.0.1:1".into(), "leave 127.0.0.1:1".into(), "replicate-join 127.0.0.1:1".into(), "replicate-join 127.0.0.1:1".into()]));
         t.push((who, vec!["set-primary 127.0.0.1:2".into(), "set-primary 127.0.0.1:2".into(), "set-primary 127.0.0.1:3".into(), "election win".into(), "set-primary 127.0.0.1:2".into()]));
         t.push((who, vec!["create-db x/y t".into(), "snapshot false x/y".into(), "use-db $admin pwd".into(), "snapshot true".into(), "snapshot false db|adb|$admin".into()]));
@@ -587,6 +603,107 @@ pub fn run(tier: &str) -> i32 {
                 finished = 0;
             }
         }
+        // (d) two sessions writing one key of an arbiter database with stale versions at the same moment, while the
+        // registered arbiter answers every conflict it is sent (the key goes into conflict resolution and comes out of it
+        // again and again): whichever of them comes second finds the key between two steps of the first
+        if finished == 4 {
+            let rounds = if thorough { 30_000 } else { 3_000 };
+            let stop = Arc::new(std::sync::atomic::AtomicBool::new(false));
+            let (tx, rx) = std::sync::mpsc::channel::<u8>();
+            {
+                let mut adm = Session::new();
+                adm.call(&dbs, "auth admin pwd");
+                adm.call(&dbs, "create-db racearb tok arbiter");
+                adm.call(&dbs, "use-db racearb tok");
+                adm.call(&dbs, "set ck 1");
+                adm.call(&dbs, "set ck 2");
+            }
+            {
+                let (dbs, dir, stop, panics) = (dbs.clone(), dir.clone(), stop.clone(), panics.clone());
+                std::thread::spawn(move || {
+                    nundb::verif::set_dir(Some(dir));
+                    let mut arb = Session::new();
+                    arb.call(&dbs, "use-db racearb tok");
+                    arb.call(&dbs, "arbiter");
+                    while !stop.load(std::sync::atomic::Ordering::Relaxed) {
+                        let notices: Vec<String> = arb.drain();
+                        if notices.is_empty() {
+                            std::thread::yield_now();
+                        }
+                        for n in notices {
+                            // resolve <opid> <db> <version> <key> <old value or conflict key> <value>
+                            let p: Vec<&str> = n.trim().split(' ').collect();
+                            if p.len() >= 7 && p[0] == "resolve" {
+                                let line = format!("resolve {} {} {} {} {}", p[1], p[2], p[4], p[3], p[6..].join(" "));
+                                if let Err(e) = std::panic::catch_unwind(std::panic::AssertUnwindSafe(|| arb.call(&dbs, &line))) {
+                                    panics.lock().unwrap().push(("resolve/two-conflicting-writers".into(), panic_msg(&e)));
+                                    return;
+                                }
+                            }
+                        }
+                    }
+                });
+            }
+            // both writers start a round together, and only once the arbiter has brought the key out of conflict resolution
+            let gate = Arc::new(std::sync::atomic::AtomicU64::new(0));
+            let broken = Arc::new(std::sync::atomic::AtomicBool::new(false));
+            for t in 0..2u8 {
+                let (dbs, dir, tx, panics, gate, broken) = (dbs.clone(), dir.clone(), tx.clone(), panics.clone(), gate.clone(), broken.clone());
+                std::thread::spawn(move || {
+                    nundb::verif::set_dir(Some(dir));
+                    let mut s = Session::new();
+                    s.call(&dbs, "use-db racearb tok");
+                    let give_up = std::time::Instant::now() + std::time::Duration::from_secs(150);
+                    'rounds: for i in 0..rounds as u64 {
+                        // round i starts when the gate shows 2*i arrivals ... and both have arrived
+                        gate.fetch_add(1, std::sync::atomic::Ordering::SeqCst);
+                        while gate.load(std::sync::atomic::Ordering::SeqCst) < 2 * (i + 1) {
+                            if broken.load(std::sync::atomic::Ordering::Relaxed) || std::time::Instant::now() > give_up {
+                                break 'rounds;
+                            }
+                            std::hint::spin_loop();
+                        }
+                        if (i + t as u64) % 4 == 0 {
+                            std::thread::yield_now();
+                        }
+                        let line = format!("set-safe ck 0 w{}x{}", t, i);
+                        if let Err(e) = std::panic::catch_unwind(std::panic::AssertUnwindSafe(|| s.call(&dbs, &line))) {
+                            panics.lock().unwrap().push(("set-safe/two-conflicting-writers".into(), panic_msg(&e)));
+                            broken.store(true, std::sync::atomic::Ordering::Relaxed);
+                            break;
+                        }
+                        // wait for the arbiter's answers: the key is writable again
+                        loop {
+                            let r = s.call_raw(&dbs, "get-safe ck");
+                            s.drain();
+                            match r {
+                                nundb::bo::Response::Value { version, .. } if version != -2 => break,
+                                _ => {}
+                            }
+                            if broken.load(std::sync::atomic::Ordering::Relaxed) || std::time::Instant::now() > give_up {
+                                break 'rounds;
+                            }
+                            std::thread::yield_now();
+                        }
+                    }
+                    let _ = tx.send(t);
+                });
+            }
+            drop(tx);
+            let mut got = 0;
+            let deadline = std::time::Instant::now() + std::time::Duration::from_secs(if thorough { 600 } else { 180 });
+            while got < 2 && std::time::Instant::now() < deadline {
+                if rx.recv_timeout(std::time::Duration::from_secs(1)).is_ok() {
+                    got += 1;
+                }
+            }
+            stop.store(true, std::sync::atomic::Ordering::Relaxed);
+            concurrent_rounds += 2 * rounds as u64;
+            if got < 2 {
+                v.report(json!({"check": "crash", "problem": "sessions-blocked-forever", "sessions": "concurrent", "word": "set-safe", "detail": "two conflicting writers on one key of an arbiter database"}), json!({"explanation": "the two writers never came back"}));
+                finished = 0;
+            }
+        }
         if finished < 4 && finished != 0 {
             v.report(json!({"check": "crash", "problem": "sessions-blocked-forever", "sessions": "concurrent", "word": "", "detail": ""}), json!({"sessions_that_never_finished": 4 - finished, "explanation": "four sessions ran random lines of the corpus at once; some never came back from a command (the node is wedged for them)"}));
         }
@@ -601,6 +718,24 @@ pub fn run(tier: &str) -> i32 {
     }
     // the same corpus over the three real transports
     let th = crate::transports::c10_transports(&v, &cases, if thorough { 6000 } else { 700 });
+    // a client that sends legal commands (use-db, watch) and then does not read what it is sent
+    let mut slow_clients = 0u64;
+    for (writes, len) in if thorough { vec![(2000usize, 4000usize), (6000, 900), (800, 20_000)] } else { vec![(2000, 4000)] } {
+        let dir = fresh_dir("c10-slow");
+        match crate::transports::slow_tcp_subscriber(&dir, writes, len) {
+            Some(sl) => {
+                slow_clients += 1;
+                if !sl.panics.is_empty() {
+                    let file = sl.panics[0].split(':').next().unwrap_or("").rsplit('/').next().unwrap_or("").to_string();
+                    v.report(json!({"check": "transport", "transport": "tcp", "problem": format!("service-thread-panicked-in-{}", file), "input": "client-that-does-not-read-its-notifications"}), json!({"panics": sl.panics, "writes": sl.writes, "value_bytes": len}));
+                } else if !sl.served_afterwards {
+                    v.report(json!({"check": "transport", "transport": "tcp", "problem": "service-dead-for-other-clients", "input": "client-that-does-not-read-its-notifications"}), json!({"writes": sl.writes, "value_bytes": len}));
+                }
+            }
+            None => v.inconclusive("could not bind loopback ports"),
+        }
+    }
+    ev.set("tcp_clients_that_did_not_read_their_notifications", json!(slow_clients));
     let st = stats.into_inner().unwrap();
     ev.evaluations = st.lines + th.lines;
     ev.distinct_nontrivial = st.classes.len() as u64;
